@@ -162,10 +162,11 @@ func (br *BodyBuffer) Reset() error {
 	if environment.HasAccessToFS && br.writer != nil {
 		w := br.writer
 		br.writer = nil
-		if err := w.Close(); err != nil {
-			return err
-		}
-		return os.Remove(w.Name())
+		// The temporary file is removed even if closing it fails: it must not
+		// outlive the transaction.
+		err := w.Close()
+		rerr := os.Remove(w.Name())
+		return errors.Join(err, rerr)
 	}
 
 	return nil
